@@ -208,11 +208,12 @@ func updateRegex(filePath string, ruleId string, chainOffset uint8, newRegex str
 	}
 
 	regexLine := lines[index]
-	found := regex.RuleRxRegex.FindAllStringSubmatch(string(regexLine), -1)
-	if len(found) == 0 {
+	found := regex.RuleRxRegex.FindSubmatchIndex(regexLine)
+	if found == nil {
 		logger.Fatal().Msgf("Failed to find rule %s in %s", ruleId, filePath)
 	}
-	updatedLine := found[0][1] + newRegex + found[0][3]
+	// replace the operand (group 2) only, retain everything before and after it
+	updatedLine := string(regexLine[:found[4]]) + newRegex + string(regexLine[found[5]:])
 	lines[index] = []byte(updatedLine)
 
 	err = os.WriteFile(filePath, bytes.Join(lines, []byte("\n")), fs.ModePerm)
